@@ -202,6 +202,17 @@ class HostObservation(AbstractObservation, discriminator="host"):
         if self.include_users:
             self.default_observation["users"] = {"local_login": 0, "remote_sessions": 0}
 
+    @staticmethod
+    def _categorise_file_count(count: int) -> int:
+        """Represent a number of file creations/deletions as a category: 0: none, 1: 1-5, 2: 6-10, 3: more than 10."""
+        if count > 10:
+            return 3
+        elif count > 5:
+            return 2
+        elif count > 0:
+            return 1
+        return 0
+
     def observe(self, state: Dict) -> ObsType:
         """
         Generate observation based on the current state of the simulation.
@@ -230,8 +241,8 @@ class HostObservation(AbstractObservation, discriminator="host"):
             if self.nics:
                 obs["NICS"] = {i + 1: nic.observe(state) for i, nic in enumerate(self.nics)}
             if self.include_num_access:
-                obs["num_file_creations"] = node_state["file_system"]["num_file_creations"]
-                obs["num_file_deletions"] = node_state["file_system"]["num_file_deletions"]
+                obs["num_file_creations"] = self._categorise_file_count(node_state["file_system"]["num_file_creations"])
+                obs["num_file_deletions"] = self._categorise_file_count(node_state["file_system"]["num_file_deletions"])
             if self.include_users:
                 sess = node_state["services"]["user-session-manager"]
                 obs["users"] = {
